@@ -1,4 +1,4 @@
 CONSTANTS MaxAttempts = 8 Family = "small" Tier = "quick"
-INIT Init
-NEXT Next
+SPECIFICATION Spec
 INVARIANTS Terminates DoneStructural Emit
+PROPERTY EventuallyStops
